@@ -276,7 +276,8 @@ class Script:
                         op_lookup = TAPROOT_OP_CODE_FUNCTIONS
         if len(stack) == 0:
             return False
-        if stack.pop() == b"":
+        # the top element must be true: every encoding of zero (b"", b"\x00", b"\x80", ...) is false
+        if not op_verify(stack):
             return False
         return True
 
